@@ -23,7 +23,8 @@ PROP = "C07"
 FUNCTIONS = ["CursorAwareWindow.__enter__", "CursorAwareWindow.render_to_terminal", "CursorAwareWindow.__exit__",
              "CursorAwareWindow.get_cursor_position", "BaseWindow.scroll_down", "BaseWindow.write", "BaseWindow.on_terminal_size_change",
              "BaseWindow.__enter__/__exit__", "FmtStr.__eq__/__str__/__len__", "blessed location()/move/clear_* (real strings)"]
-BOUNDS = ("terminal sizes (2,2), (3,2) quick; + (3,3), (4,2) thorough; 0 or 2 lines already in the scrollback, cursor on any screen "
+BOUNDS = ("initial screen: marker lines above the cursor, in half of the instances also old output on the cursor's row and below; " +
+          "terminal sizes (2,2), (3,2) quick; + (3,3), (4,2) thorough; 0 or 2 lines already in the scrollback, cursor on any screen "
           "row r0 with marker lines above it; first array from a reduced set (8), second array: quick a seeded sample of 10 (+ all "
           "arrays of height <= 1), thorough all; heights 0..h+2, rows of length 0..w (str / 1-run / 2-run); every row character "
           "symbolic; cursor target: first visible / last array row (symbolic choice) at a column fixed per instance; keep_last_line and hide_cursor both")
@@ -81,7 +82,7 @@ def instances(tier, seed):
                     for o in opts:
                         out.append({"name": "hist-%dx%d-r%d-sb%d-A%d-o%d" % (h, w, r0, sb, ai, o), "fn": "history", "timeout": T, "cost": h,
                                     "params": {"h": h, "w": w, "r0": r0, "sb": sb, "A": ai, "keep": bool(o & 1), "hide": bool(o & 2),
-                                               "cc": (ai + r0) % w,
+                                               "cc": (ai + r0) % w, "below": (ai + r0 + sb // 2) % 2 == 1,
                                                "seed": seed, "limit": (10 if h == 2 else 4) if tier == "quick" else 100000}})
     return out
 
@@ -158,8 +159,9 @@ def _padded(row, w):
     return [cs[c] if c < len(cs) else BLANK for c in range(w)]
 
 
-def _initial(h, w, r0, sb):
-    """terminal holding sb + r0 marker lines, cursor on row r0 (column 0); returns model and the history tape"""
+def _initial(h, w, r0, sb, below=False):
+    """terminal holding sb + r0 marker lines, cursor on row r0 (column 0); returns model and the history tape.
+    below: the cursor is parked inside existing output - the rows from the cursor's down hold text as well"""
     model = TermModel(h, w)
     tape = []
     for i in range(sb):
@@ -170,6 +172,9 @@ def _initial(h, w, r0, sb):
         line = [(MARK[(sb + r) % len(MARK)], ()) if c == 0 else ("-", (("bold", True),)) for c in range(w)]
         model.grid[r] = list(line)
         tape.append(line)
+    if below:
+        for r in range(r0, h):
+            model.grid[r] = [("~", (("fg", 35),)) if c == 0 else ("+", ()) for c in range(w)]
     model.cup(r0, 0)
     return model, tape
 
@@ -185,7 +190,8 @@ def _rows_eq(a, b):
 
 
 def _tape(model):
-    return model.scrollback + model.grid
+    # copies: the model edits its rows in place, a tape taken earlier must not change with it
+    return [list(r) for r in model.scrollback + model.grid]
 
 
 def _render_and_check(win, model, rows, cursor, state, w, h):
@@ -232,7 +238,7 @@ def history(ta: str, tb: str, s1: int, s2: int, ca_last: bool, cb_last: bool, se
     specA = ENV["specA"]
     specB = H.pick(CASES, s1, s2)
     win, rec, inp = ENV["win"], ENV["rec"], ENV["inp"]
-    model, hist = _initial(h, w, r0, sb)
+    model, hist = _initial(h, w, r0, sb, P.get("below", False))
     rec.model = model
     inp.model = model
     SIZE[0], SIZE[1] = h, w
@@ -355,6 +361,9 @@ def concrete(fn, params, args):
         scr.reset()
         for r in range(r0):
             st.feed("\x1b[%d;1H" % (r + 1) + hist_text[sb + r])
+        if params.get("below"):
+            for r in range(r0, h):
+                st.feed("\x1b[%d;1H\x1b[35m~\x1b[m" % (r + 1) + "+" * (w - 1))
         st.feed("\x1b[%d;1H" % (r0 + 1))
 
         def pump():
@@ -377,7 +386,7 @@ def concrete(fn, params, args):
         out.seek(0)
         out.truncate()
         st.feed(data)
-        call = "%dx%d terminal, %d marker lines above the cursor; enter" % (h, w, r0)
+        call = "%dx%d terminal, %d marker lines above the cursor%s; enter" % (h, w, r0, ", old output on the cursor's row and below" if params.get("below") else "")
         screen_hist = [hist_text[sb + r] for r in range(r0)]      # history rows still on screen, top first
         top = r0
         scrolled_total = 0
